@@ -32,3 +32,6 @@ Proof. reflexivity. Qed.
 
 Lemma bridge_prepare_pinned : gen_prepare_is_pinned = true.
 Proof. reflexivity. Qed.
+
+Lemma bridge_placeholder_pinned : gen_placeholder_is_pinned = true.
+Proof. reflexivity. Qed.
